@@ -69,10 +69,19 @@ def make_seed(V, j, state, kind, setup, tag="w"):
     """Returns (object to assign to Signal.sensitivity, dense entries W of the seed)."""
     import pymoto as pym
     ent = dense_entries(state)
-    cplx = is_complex_content(ent) if V.symbolic else np.iscomplexobj(ent)
     name = "%s%d" % (tag, j)
+    if V.symbolic:
+        cplx = is_complex_content(ent)
+    else:
+        # concrete mode: follow the symbolic run (LAPACK may return a complex dtype with zero imaginary parts for a
+        # real problem; the seed symbols of the symbolic run were then real)
+        cplx = any(k == name + "_re" or (k.startswith(name + "_") and k.endswith("_re")) for k in (V.env or {}))
+        if not cplx and not any(k == name or k.startswith(name + "_") for k in (V.env or {})):
+            cplx = bool(np.iscomplexobj(ent))
     if np.ndim(ent) == 0:
         w = V.cplx(name) if cplx else V.real(name)
+        if V.symbolic and getattr(V.c, "seed_nonzero", False):
+            V.assume((w.re if isinstance(w, C) else w) != 0, "generic (non-zero) seeds")
         return w, np.array(w, dtype=object if V.symbolic else None)
     shp = np.shape(ent)
     if kind == "dyad":
@@ -86,6 +95,9 @@ def make_seed(V, j, state, kind, setup, tag="w"):
         W = sum(np.outer(u, v) for u, v in zip(us, vs))
         return dy, W
     w = V.cplxs(name, shp) if cplx else V.reals(name, shp)
+    if V.symbolic and getattr(V.c, "seed_nonzero", False):
+        for e in np.asarray(w, dtype=object).flat:
+            V.assume((e.re if isinstance(e, C) else e) != 0, "generic (non-zero) seeds")
     return w, np.asarray(w)
 
 
